@@ -101,7 +101,8 @@ def filter_structure(sl):
 
 
 TAGS = [None, "a", "ab", ["a", "b"], ["ab"], []]
-FILTERS = ["leaf0", "leaf1", "type:bulk", "type:search", "tag:a", "tag:b", "tag:ab"]
+FILTERS = ["leaf0", "leaf1", "type:bulk", "type:search", "tag:a", "tag:b", "tag:ab", "type:MyCustomOp", "type:mycustomop", "Leaf0", "tag:A"]
+OPTYPES = ["bulk", "search", "MyCustomOp"]  # custom runners register operation types under any name
 
 
 def documented_match(name, optype, tags, spec):
@@ -117,7 +118,7 @@ def documented_match(name, optype, tags, spec):
 def filter_semantics(sl):
     """real Task + real filters built by the real parser: by name, type: and tag: (a tag given as a plain string is one tag)"""
     name = "leaf%d" % concrete(fresh_int("name", 0, 1))
-    optype = ["bulk", "search"][concrete(fresh_int("optype", 0, 1))]
+    optype = OPTYPES[concrete(fresh_int("optype", 0, len(OPTYPES) - 1))]
     tags = TAGS[concrete(fresh_int("tags", 0, len(TAGS) - 1))]
     spec = FILTERS[concrete(fresh_int("filter", 0, len(FILTERS) - 1))]
     include = bool(fresh_bool("include_mode"))
@@ -127,7 +128,7 @@ def filter_semantics(sl):
     sched = [track.Parallel([t, other])] if nested else [t, other]
     ch = track.Challenge("c", schedule=sched, default=True)
     # another challenge uses the same task name for a task of the other type with other tags
-    optype2, tags2 = ("search" if optype == "bulk" else "bulk"), (["b"] if tags in (None, "a", []) else None)
+    optype2, tags2 = ("search" if optype != "search" else "bulk"), (["b"] if tags in (None, "a", []) else None)
     t2 = track.Task(name, track.Operation("op3", optype2), tags=tags2)
     ch2 = track.Challenge("d", schedule=[t2])
     tr = track.Track("t", challenges=[ch, ch2] if bool(fresh_bool("selected_challenge_first")) else [ch2, ch])
@@ -188,7 +189,7 @@ HARNESSES = [
             stubs=["filters replaced by objects whose matches() returns the solver variable (the real filter classes are covered by filter_semantics)"],
             doc="survivors, order, identity, no empty parallel, C02 invariants on the result"),
     Harness("filter_semantics", filter_semantics, "bounded-exhaustive", lambda tier: [{}], reads=READS,
-            bounds={"task": "2 names x 2 operation types x 6 tag forms (None, string, list, substring-like string)", "filters": FILTERS},
+            bounds={"task": "2 names x 3 operation types (one custom, mixed case) x 6 tag forms (None, string, list, substring-like string)", "filters": FILTERS},
             doc="name / type: / tag: semantics through the real parser, Task and filter classes"),
     Harness("filter_parser", filter_parser, "bounded-exhaustive", lambda tier: [{}], reads=READS, doc="malformed specs rejected; no filter = no-op"),
 ]
